@@ -763,6 +763,26 @@ class ConstructInterface(Interface):
     def abstract_self_call(self, eng, qual, selfv, args, kws, st, node):
         """Under the public entry points `self` is an arbitrary construct: its abstract hooks _parse/_build/_sizeof are the
         interface functions of self (exactly how every sub-construct is known everywhere else)."""
+        m0 = qual.split(':', 1)[1]
+        if getattr(self, 'hooks_as_functions', False) and m0 in ('Adapter._decode', 'Adapter._encode') and isinstance(selfv, VObj) and selfv.ident is not None:
+            # the adapter's own hooks (abstract here; every subclass supplies them): named through interface functions of
+            # (adapter, value, scope) so that the plumbing of Adapter._parse / _build can be stated exactly
+            kind = I(0 if m0.endswith('_decode') else 1)
+            H, D = self.H(st)
+            c = self.ctx_addr(eng, args[1], st)
+            ov = eng.to_dyn(args[0], st)
+            for fn, srt in (('K_ok', t.BOOL), ('K_val', t.VAL), ('K_exc', t.INT)):
+                prelude.declare_fun(fn, [t.INT, t.INT, t.VAL, 'Heap', 'Dom', t.INT], srt)
+            a = (kind, selfv.ident, ov, H, D, c)
+            good, bad = eng.fork(st, t.app('K_ok', t.BOOL, *a))
+            out = []
+            if good is not None:
+                out.append((good, VDyn(t.app('K_val', t.VAL, *a))))
+            if bad is not None:
+                ec = t.app('K_exc', t.INT, *a)
+                self.construct_error(eng, bad, ec)
+                out.append((bad, Raised(VExc(ec, self.exc_path(eng, bad, args[2], 'hook'), origin='adapter hook failed', explicit_path=True))))
+            return out
         if not getattr(self, 'self_as_sub', False) or not isinstance(selfv, VObj) or selfv.ident is None:
             return None
         m = qual.split(':', 1)[1]
